@@ -73,3 +73,13 @@ silent("C22", "manager-registers-built-by-comprehension-and-slice",
                "        self._registers = {AllocateState.ZERO: [w for w in zeroed], AllocateState.ANY: list(any_state)[:]}")])
 silent("C22", "reset-ops-emitted-after-recording-the-wire",
        [(_RDW, "                yield from ops\n                wire_map[w] = wire", "                wire_map[w] = wire\n                yield from ops")])
+
+# --- R-C22-promise / R-C22-tapewires
+fire("C22", "allocate-records-restored-for-every-any-state-request",
+     ("pennylane/allocation.py", "        self._hyperparameters = {\"state\": state, \"restored\": restored}",
+      "        restored = bool(restored) or AllocateState(state) == AllocateState.ANY\n        self._hyperparameters = {\"state\": state, \"restored\": restored}"),
+     "R-C22-promise", "Allocate.__init__")
+fire("C22", "copy-keeps-memoised-wires-when-measurements-change",
+     ("pennylane/core/qscript.py", "        if \"operations\" not in update:\n            # batch size may change if operations were updated\n",
+      "        if \"operations\" not in update:\n            if (cached_wires := self.__dict__.get(\"wires\")) is not None:\n                new_qscript.__dict__[\"wires\"] = cached_wires\n            # batch size may change if operations were updated\n"),
+     "R-C22-tapewires", "QuantumScript.copy")
